@@ -44,6 +44,7 @@ class SimThread:
         self.result = None
         self.exc_info = None
         self.windows = []      # stack of window names this thread is currently inside
+        self.importing = 0     # depth of import statements in progress in this thread (never pre-empted: module locks)
         self.steps = 0
         self.thread = None
 
@@ -96,7 +97,21 @@ class Scheduler:
                     self.bump("probe.two_threads_inside." + code.co_name)
                 return self._local_trace_window
             return self._local_trace
+        if code.co_name == "_find_and_load" and fn.startswith("<frozen importlib"):
+            # an import in progress holds per-module locks; a thread parked inside one would block every other thread that
+            # imports the same module while holding the baton.  Imports are therefore atomic for the scheduler.
+            st = self._me()
+            if st is not None:
+                st.importing += 1
+                return self._local_trace_import
         return None
+
+    def _local_trace_import(self, frame, event, arg):
+        if event == "return":
+            st = self._me()
+            if st is not None and st.importing > 0:
+                st.importing -= 1
+        return self._local_trace_import
 
     def _local_trace(self, frame, event, arg):
         if event == "line":
@@ -128,7 +143,7 @@ class Scheduler:
             self.frozen = True
             self.bump("step_cap_reached")
             return
-        if _imp.lock_held():
+        if _imp.lock_held() or st.importing:
             return
         others = self.runnable_others(st)
         if not others:
